@@ -448,6 +448,68 @@ var mutators = map[string]mutator{
 		x.m.HTTP.Errors = append(x.m.HTTP.Errors, er)
 		return &Mutation{Kind: "undeclared_error", Where: where(x), Name: "nope", Covered: true, Expect: "reject"}
 	},
+	// an error response for a name that IS declared, but in a scope the response does not see:
+	// service-level (API-level) Response for an error only a method (service) declares, with
+	// or without the method's own response for it; method-level Response for an error only a
+	// sibling method declares
+	"error_wrong_scope": func(d *dg.Design, r *vh.RNG) *Mutation {
+		x, ok := pickM(r, methods(d, func(_ *dg.Service, m *dg.Method) bool { return m.HTTP != nil }))
+		if !ok {
+			return nil
+		}
+		declared := func(es []dg.ErrorDef, n string) bool {
+			for _, e := range es {
+				if e.Name == n {
+					return true
+				}
+			}
+			return false
+		}
+		// an error only this method declares
+		name := ""
+		for _, e := range x.m.Errors {
+			if !declared(x.s.Errors, e.Name) && !declared(d.Errors, e.Name) && e.T == nil {
+				name = e.Name
+			}
+		}
+		if name == "" {
+			name = "only_here"
+			x.m.Errors = append(x.m.Errors, dg.ErrorDef{Name: name})
+			x.m.HTTP.Errors = append(x.m.HTTP.Errors, dg.ErrResponse{Name: name, R: dg.Response{Status: 422}})
+		}
+		dropOwn := func() string {
+			if !r.Bool() {
+				return ""
+			}
+			var keep []dg.ErrResponse
+			for _, er := range x.m.HTTP.Errors {
+				if er.Name != name {
+					keep = append(keep, er)
+				}
+			}
+			x.m.HTTP.Errors = keep
+			return ", the method has no response of its own for it"
+		}
+		er := dg.ErrResponse{Name: name, R: dg.Response{Status: 418}}
+		switch r.Intn(4) {
+		case 0, 1:
+			x.s.HTTPErrs = append(x.s.HTTPErrs, er)
+			return &Mutation{Kind: "error_wrong_scope", Where: "service " + x.s.Name, Name: name + " (declared by method " + x.m.Name + " only" + dropOwn() + ")", Covered: true, Expect: "reject"}
+		case 2:
+			d.HTTPErrs = append(d.HTTPErrs, er)
+			return &Mutation{Kind: "error_wrong_scope", Where: "api", Name: name + " (declared by method " + x.m.Name + " only" + dropOwn() + ")", Covered: true, Expect: "reject"}
+		}
+		// a sibling method (same or other service) answers with it
+		y, ok := pickM(r, methods(d, func(_ *dg.Service, m *dg.Method) bool {
+			return m.HTTP != nil && m != x.m && !declared(m.Errors, name)
+		}))
+		if !ok {
+			d.HTTPErrs = append(d.HTTPErrs, er)
+			return &Mutation{Kind: "error_wrong_scope", Where: "api", Name: name + " (declared by method " + x.m.Name + " only)", Covered: true, Expect: "reject"}
+		}
+		y.m.HTTP.Errors = append(y.m.HTTP.Errors, er)
+		return &Mutation{Kind: "error_wrong_scope", Where: where(y), Name: name + " (declared by method " + x.m.Name + " only)", Covered: true, Expect: "reject"}
+	},
 	"dangling_err_header": func(d *dg.Design, r *vh.RNG) *Mutation {
 		x, ok := pickM(r, methods(d, func(_ *dg.Service, m *dg.Method) bool {
 			if m.HTTP == nil {
